@@ -5,6 +5,7 @@ cacheable functions; get and insert use the same key, which is built from the na
 argument and nothing else; a hit makes no call; only successful results are stored; errors are wrapped
 with the function name; the cache object is created per evaluation call and only threaded downwards.
 NOT decided: injectivity of the "{name}-{param:?}" rendering (Debug output of foreign types)."""
+import re
 import evalsum
 from framework import Inconclusive
 from norm import norm, norm_cond, show, short_callee
@@ -45,6 +46,15 @@ def cache_touch_sites(f, uf_call):
     from mir import callee_of
     sites = []
     bodies_with_cache = 0
+    # the cache type is whatever UserFunctions::call receives by `&mut` (a map today; a wrapper struct is as good)
+    ub = f.bodies[uf_call]
+    muts = [f.ty_s(ub["locals"][i]["ty"]) for i in range(2, ub["arg_count"] + 1) if f.ty_s(ub["locals"][i]["ty"]).startswith("&mut ")]
+    if len(muts) != 1:
+        raise Inconclusive("UserFunctions::call does not take exactly one `&mut` parameter (the cache): %s" % muts)
+    CACHE_REF = muts[0]
+    CACHE_MAP = CACHE_REF[5:]
+    wrapper = CACHE_MAP in f.adts and f.adts[CACHE_MAP].get("local")
+    cache_types = {CACHE_REF} | ({CACHE_MAP, "&" + CACHE_MAP} if wrapper else set())
 
     def root_of(d):
         while f.bodies.get(d, {}).get("parent"):
@@ -76,13 +86,15 @@ def cache_touch_sites(f, uf_call):
             root = f.bodies[root]["parent"]
         nloc = len(b["locals"])
         tys = [f.ty_s(l["ty"]) for l in b["locals"]]
-        tainted = set(i for i in range(1, b["arg_count"] + 1) if tys[i] == CACHE_REF)
+        tainted = set(i for i in range(1, b["arg_count"] + 1) if tys[i] in cache_types)
+        if wrapper:
+            tainted |= set(i for i in range(1, nloc) if tys[i] in cache_types)
 
         def place_tainted(pl):
             if pl["l"] in tainted:
                 return True
             for e in pl["p"]:
-                if e[0] == "field" and len(e) > 2 and f.ty_s(e[2]) == CACHE_REF:
+                if e[0] == "field" and len(e) > 2 and f.ty_s(e[2]) in cache_types:
                     return True
             return False
 
@@ -156,7 +168,10 @@ def run(res, f, tier):
         else:
             res.violation(key, what, detail)
 
-    uf_call = find1(f, lambda d, b: b["name"] == "call" and (b.get("impl") or {}).get("self_s") == "function::UserFunctions" and b["kind"] == "AssocFn", "UserFunctions::call")
+    import anchors
+    A = anchors.resolve(f)
+    SH = A["short"]
+    uf_call = A["uf_call"]
     paths, it = evalsum.run_async_fn(f, uf_call, ["self", "name", "param", "cache"])
     LOOK = "BTreeMap::get(self.functions, name)"
     F = "BTreeMap::get!(self.functions, name)"
@@ -169,11 +184,12 @@ def run(res, f, tier):
         conds = dict(norm_cond(c) for c in s.conds)
         calls = calls_of(s)
         ret = show(norm(it.resolve(s, rv)))
-        gets = [c for c in calls if c[1] == "BTreeMap::get" and c[2] == "cache"]
-        ins = [c for c in calls if c[1] == "BTreeMap::insert" and c[2] == "cache"]
+        is_cache = lambda x: x == "cache" or x.startswith("cache.")    # the map itself or the map inside a wrapper struct
+        gets = [c for c in calls if c[1] == "BTreeMap::get" and is_cache(c[2])]
+        ins = [c for c in calls if c[1] == "BTreeMap::insert" and is_cache(c[2])]
         ucalls = [c for c in calls if c[1] == "dyn UserFunction::call"]
         for e in s.events:
-            if e[0] == "call" and short_callee(e[1]) == "BTreeMap::get" and show(norm(e[2][0])) == "cache":
+            if e[0] == "call" and short_callee(e[1]) == "BTreeMap::get" and is_cache(show(norm(e[2][0]))):
                 raw_keys.append(norm(e[2][1]))
         for g in gets:
             keys_get.add(g[3])
@@ -184,11 +200,11 @@ def run(res, f, tier):
             classes["unknown"].append(rec)
         elif conds.get(CACHEABLE) == "val 0":
             classes["nocache"].append(rec)
-        elif gets and conds.get("BTreeMap::get(cache, %s)" % gets[0][3]) == "ok":
+        elif gets and conds.get("BTreeMap::get(%s, %s)" % (gets[0][2], gets[0][3])) == "ok":
             classes["hit"].append(rec)
         else:
             classes["miss"].append(rec)
-    res.floor("paths of UserFunctions::call", len(paths), 6)
+    res.floor("paths of UserFunctions::call", len(paths), 4)
     # 1. lookup by name
     ob(len(classes["unknown"]) == 1 and classes["unknown"][0]["ret"] == "Err(UnknownUserFunction(name))" and not classes["unknown"][0]["ucalls"],
        "C11|lookup", "an unknown function name must give UnknownUserFunction(name) without calling anything: %s" % [r["ret"] for r in classes["unknown"]])
@@ -224,12 +240,13 @@ def run(res, f, tier):
     ob(key_ok, "C11|key-content", "the cache key must be a rendering of (name, whole argument): %s" % why, {"key": show(raw_keys[0]) if raw_keys else None})
     # 4. hit: no call, stored value returned;  miss: call, insert only after success, value returned
     K = next(iter(keys_get)) if keys_get else "?"
-    ob(len(classes["hit"]) == 1 and not classes["hit"][0]["ucalls"] and not classes["hit"][0]["ins"] and classes["hit"][0]["ret"] == "Ok(BTreeMap::get!(cache, %s))" % K,
+    CM = next((r["gets"][0][2] for r in every if r["gets"]), "cache")     # how this tree spells the map object
+    ob(len(classes["hit"]) == 1 and not classes["hit"][0]["ucalls"] and not classes["hit"][0]["ins"] and classes["hit"][0]["ret"] == "Ok(BTreeMap::get!(%s, %s))" % (CM, K),
        "C11|hit", "a cache hit must return the stored value without invoking the function", {"paths": [(r["ret"], r["ucalls"]) for r in classes["hit"]]})
     AW = "await(%s)" % USERCALL
     okp = [r for r in classes["miss"] if r["conds"].get(AW) == "is Ok"]
     erp = [r for r in classes["miss"] if r["conds"].get(AW) == "is Err"]
-    ob(len(okp) == 1 and len(okp[0]["ucalls"]) == 1 and okp[0]["ins"] == [("call", "BTreeMap::insert", "cache", K, AW + ".Ok.0")] and okp[0]["ret"] == "Ok(%s.Ok.0)" % AW
+    ob(len(okp) == 1 and len(okp[0]["ucalls"]) == 1 and okp[0]["ins"] == [("call", "BTreeMap::insert", CM, K, AW + ".Ok.0")] and okp[0]["ret"] == "Ok(%s.Ok.0)" % AW
        and okp[0]["calls"].index(okp[0]["ucalls"][0]) < okp[0]["calls"].index(okp[0]["ins"][0]),
        "C11|miss-ok", "on a miss the function is called once, its successful result stored under the key and returned", {"paths": [(r["ret"], r["ins"]) for r in okp]})
     ob(len(erp) == 1 and not erp[0]["ins"], "C11|failures-not-cached", "a failed call must not be remembered", {"paths": [(r["ret"], r["ins"]) for r in erp]})
@@ -242,38 +259,44 @@ def run(res, f, tier):
     ob(len(errs) == 2 and all(e == want for e in errs), "C11|error-wrapping", "a user function's failure must surface as UserFunctionError{function: name, error: the original error}: %s" % errs)
     # 6. lifetime of the cache: created per evaluation call, threaded downwards unchanged
     chain = []
-    rs_call = find1(f, lambda d, b: b["name"] == "call_function" and (b.get("impl") or {}).get("self_s") == "ruleset::RuleSet", "RuleSet::call_function")
+    rs_call = A["rs_call"]
     p2, it2 = evalsum.run_async_fn(f, rs_call, ["self", "name", "params", "cache"], opaque=lambda p: p == uf_call)
     c2 = [calls_of(s) for s, _ in p2]
-    ob(c2 == [[("call", "UserFunctions::call", "self.functions", "name", "params", "cache")]], "C11|thread|RuleSet::call_function",
+    ob(c2 == [[("call", SH["uf_call"], "self.functions", "name", "params", "cache")]], "C11|thread|RuleSet::call_function",
        "RuleSet::call_function must hand name, argument and the caller's cache to its own function table: %s" % c2)
-    ctx_call = find1(f, lambda d, b: b["name"] == "call_function" and "EvalContext" in (b.get("impl") or {}).get("self_s", ""), "EvalContext::call_function")
+    ctx_call = A["ctx_call"]
     p3, it3 = evalsum.run_async_fn(f, ctx_call, ["self", "name", "params"], opaque=lambda p: p == rs_call)
     c3 = [calls_of(s) for s, _ in p3]
-    ob(c3 == [[("call", "RuleSet::call_function", "self.ruleset", "name", "params", "self.function_cache")]], "C11|thread|EvalContext::call_function",
+    ob(c3 == [[("call", SH["rs_call"], "self.ruleset", "name", "params", "self.function_cache")]], "C11|thread|EvalContext::call_function",
        "the evaluation context must call its ruleset with its own cache: %s" % c3)
     evaluator = evalsum.find_evaluator(f)
-    ctx_new = find1(f, lambda d, b: b["name"] == "new" and "EvalContext" in (b.get("impl") or {}).get("self_s", ""), "EvalContext::new")
+    ctx_new = A["ctx_new"]
     outs, _ = evalsum.summarize_fn(f, ctx_new, arg_names=["ruleset", "function_cache", "facts"])
     ob(len(outs) == 1 and outs[0][1] == "EvalContext(ruleset, function_cache, facts)", "C11|thread|EvalContext::new", "EvalContext::new must store its arguments unchanged: %s" % [o[1] for o in outs])
-    eval_rule = find1(f, lambda d, b: b["name"] == "eval_rule" and b["kind"] == "AssocFn", "Expr::eval_rule")
+    eval_rule = A["eval_rule"]
     p4, it4 = evalsum.run_async_fn(f, eval_rule, ["self", "ruleset", "function_cache", "facts"], opaque=lambda p: p in (evaluator[0], ctx_new))
-    c4 = [[c for c in calls_of(s) if c[1] == "EvalContext::new"] for s, _ in p4]
-    ob(c4 == [[("call", "EvalContext::new", "ruleset", "function_cache", "facts")]], "C11|thread|eval_rule", "per-rule evaluation must use the ruleset, cache and input it was given: %s" % c4)
-    expr_eval = find1(f, lambda d, b: b["name"] == "evaluate" and (b.get("impl") or {}).get("self_s") == "expr::Expr", "Expr::evaluate")
+    c4 = [[c for c in calls_of(s) if c[1] == SH["ctx_new"]] for s, _ in p4]
+    ob(c4 == [[("call", SH["ctx_new"], "ruleset", "function_cache", "facts")]], "C11|thread|eval_rule", "per-rule evaluation must use the ruleset, cache and input it was given: %s" % c4)
+    expr_eval = A["expr_eval"]
     p5, it5 = evalsum.run_async_fn(f, expr_eval, ["self", "facts"], opaque=lambda p: p in (evaluator[0], ctx_new))
-    c5 = [[c for c in calls_of(s) if c[1] in ("EvalContext::new", "BTreeMap::new")] for s, _ in p5]
-    ob(len(c5) == 1 and ("call", "BTreeMap::new") in c5[0] and any(c[1] == "EvalContext::new" and c[3] == "BTreeMap::new()" and c[4] == "facts" for c in c5[0]),
+    # a fresh cache = the result of a call without arguments (BTreeMap::new(), FunctionCache::new(), ::default()),
+    # made once in this body
+    FRESH = re.compile(r"^[\w:<>, ]+\(\)$")
+    c5 = [[c for c in calls_of(s) if c[1] == SH["ctx_new"] or (len(c) == 2 and FRESH.match(c[1] + "()"))] for s, _ in p5]
+    ob(len(c5) == 1 and any(c[1] == SH["ctx_new"] and FRESH.match(c[3]) and c[4] == "facts" and sum(1 for x in c5[0] if len(x) == 2 and x[1] + "()" == c[3]) == 1 for c in c5[0]),
        "C11|fresh|Expr::evaluate", "a stand-alone expression evaluation must start from a fresh cache: %s" % c5)
     ev_value = find1(f, lambda d, b: b["name"] == "evaluate_value" and (b.get("impl") or {}).get("self_s") == "ruleset::RuleSet", "RuleSet::evaluate_value")
     p6, it6 = evalsum.run_async_fn(f, ev_value, ["self", "facts"], opaque=lambda p: p == eval_rule)
     fresh_ok = True
     for s, _ in p6:
         calls = calls_of(s)
-        news = [i for i, c in enumerate(calls) if c == ("call", "BTreeMap::new")]
-        rules = [i for i, c in enumerate(calls) if c[1] == "Expr::eval_rule"]
-        if len(news) != 1 or any(i < news[0] for i in rules) or any(calls[i][4] != "BTreeMap::new()" for i in rules):
-            fresh_ok = False
+        rules = [i for i, c in enumerate(calls) if c[1] == SH["eval_rule"]]
+        shared = set(calls[i][4] for i in rules)
+        if rules:
+            x = next(iter(shared))
+            news = [i for i, c in enumerate(calls) if len(c) == 2 and c[1] + "()" == x]
+            if len(shared) != 1 or not FRESH.match(x) or len(news) != 1 or any(i < news[0] for i in rules):
+                fresh_ok = False
     ob(fresh_ok and len(p6) >= 3, "C11|fresh|evaluate_value", "one ruleset evaluation must create exactly one cache, before its first rule, and share it with every rule")
     # no other function hands out or stores a cache: the only calls of UserFunctions::call / creations feeding it are the ones above
     callers = set()
